@@ -26,8 +26,9 @@ STDLIB_MODELS = {"itertools": {MODKEY: "itertools", "chain": {MODKEY: "itertools
 
 
 class ModuleInterp:
-    def __init__(self, ctx, obj_types=(), extern=None, max_steps=200000):
+    def __init__(self, ctx, obj_types=(), extern=None, max_steps=200000, inject=None):
         self.ctx = ctx
+        self.inject = dict(inject or {})   # name -> value placed in every module environment (stand-ins for repository classes)
         self.env = {}           # modname -> dict
         self.obj_types = tuple(obj_types)
         self.extern = extern or {}   # name -> python callable (models of external functions)
@@ -66,6 +67,7 @@ class ModuleInterp:
                 src = self._initial_values(imp[1])
                 if imp[2] in src:
                     env[local] = src[imp[2]]
+        env.update(self.inject)
         return env
 
     def _initial_values(self, modname):
@@ -154,6 +156,18 @@ class ModuleInterp:
         if ty not in self.obj_types:
             self.obj_types = self.obj_types + (ty,)
         return ty
+
+    def constructor(self, clsinfo, fake):
+        """A callable standing for `Class(...)`: creates the stand-in and interprets the class's own __init__ on it."""
+        init = clsinfo.methods.get("__init__")
+        if init is None:
+            raise AnalysisError(f"{clsinfo.qual} has no __init__ to interpret")
+
+        def make(*a, **k):
+            obj = fake()
+            self.call(init, obj, *a, **k)
+            return obj
+        return make
 
     def read_global(self, modname, name):
         env = self.module_env(modname)
